@@ -164,6 +164,9 @@ type World struct {
 	// PollInterval of the device flow: fake time inside a bubble; real time in the race run
 	PollInterval time.Duration
 	Hooks *Hooks
+	// long-lived HTTP handlers of the browser-facing RP (RP2: cookie handler + PKCE): one
+	// closure each, shared by all requests like a handler mounted on a mux
+	StartH, CbH http.Handler
 }
 
 // Hooks let the checker observe objects at the moment they come into existence
@@ -236,6 +239,7 @@ func Build(h *Hooks) *World {
 	w.add(&Inst{Name: "L0", Kind: "legacy", Ref: "base:L0", Obj: w.R.H[1], Handler: w.R.H[1], Issuer: rig.Issuer})
 	w.newRP("RP0", "base:RP0", true, false)
 	w.newRP("RP1", "base:RP1", true, true)
+	w.newRPHandlers()
 	w.newRS("RS0", "base:RS0", "cc", false)
 	w.newRS("RS1", "base:RS1", "cc", true)
 	w.newTE("TE0", "base:TE0", "cc", false)
@@ -261,6 +265,66 @@ func (w *World) newRP(name, ref string, oidcRP, supplied bool) {
 	}
 	must(err)
 	w.add(&Inst{Name: name, Kind: "rp", Ref: ref, Obj: r, RP: r, Issuer: rig.Issuer})
+}
+
+// newRPHandlers adds RP2 (cookie handler, PKCE, custom URL parameters) and mounts its two
+// browser-facing handlers once.
+func (w *World) newRPHandlers() {
+	ch := httphelper.NewCookieHandler([]byte("0123456789abcdef0123456789abcdef"), []byte("0123456789abcdef"), httphelper.WithUnsecure())
+	w.supply("CookieHandler(RP2)", "httphelper.CookieHandler", ch)
+	r, err := rp.NewRelyingPartyOIDC(w.Ctx, rig.Issuer, WebID, WebSecret, Redirect, strings.Fields(Scopes), rp.WithPKCE(ch), rp.WithLogger(rig.Discard),
+		rp.WithUnauthorizedHandler(func(rw http.ResponseWriter, _ *http.Request, desc string, _ string) {
+			http.Error(rw, "unauthorized: "+desc, http.StatusUnauthorized)
+		}))
+	must(err)
+	w.add(&Inst{Name: "RP2", Kind: "rp", Ref: "base:RP2", Obj: r, RP: r, Issuer: rig.Issuer})
+	var ctr atomic.Int64 // the application's state function: its own business, synchronised
+	w.StartH = rp.AuthURLHandler(func() string { return fmt.Sprintf("state-%d", ctr.Add(1)) }, r,
+		rp.WithURLParam("audience", "https://api.example"), rp.WithPromptURLParam("login"))
+	w.CbH = rp.CodeExchangeHandler(func(rw http.ResponseWriter, _ *http.Request, tk *oidc.Tokens[*oidc.IDTokenClaims], state string, _ rp.RelyingParty) {
+		if tk == nil || tk.IDTokenClaims == nil || tk.IDTokenClaims.Subject != "u1" {
+			http.Error(rw, "claims", http.StatusInternalServerError)
+			return
+		}
+		rw.Header().Set("X-State", state)
+		rw.WriteHeader(http.StatusOK)
+	}, r)
+}
+
+// browserLogin runs one complete browser login through RP2's handlers and P0:
+// start (cookies + authorization URL), the provider's code flow with exactly the
+// parameters of that URL, callback with the cookies of this browser.
+func (w *World) browserLogin(onlyStart bool) string {
+	rec := httptest.NewRecorder()
+	w.StartH.ServeHTTP(rec, httptest.NewRequest("GET", "https://rp.example/login", nil))
+	loc, err := url.Parse(rec.Header().Get("Location"))
+	if rec.Code != http.StatusFound || err != nil {
+		return fmt.Sprintf("refused:start %d", rec.Code)
+	}
+	q := loc.Query()
+	var ck []string
+	for _, c := range (&http.Response{Header: rec.Header()}).Cookies() {
+		ck = append(ck, c.Name+"="+c.Value)
+	}
+	if q.Get("state") == "" || q.Get("code_challenge") == "" || len(ck) != 2 || q.Get("audience") != "https://api.example" {
+		return "refused:authorization URL " + loc.RawQuery
+	}
+	if onlyStart {
+		return "ok"
+	}
+	code, last := w.R.CodeFlow(0, WebID, "u1", Scopes, url.Values{"state": q["state"], "code_challenge": q["code_challenge"],
+		"code_challenge_method": q["code_challenge_method"], "nonce": nil})
+	if code == "" {
+		return fmt.Sprintf("refused:code flow %d", last.Status)
+	}
+	req := httptest.NewRequest("GET", Redirect+"?"+url.Values{"code": {code}, "state": q["state"]}.Encode(), nil)
+	req.Header.Set("Cookie", strings.Join(ck, "; "))
+	rec2 := httptest.NewRecorder()
+	w.CbH.ServeHTTP(rec2, req)
+	if rec2.Code != http.StatusOK || rec2.Header().Get("X-State") != q.Get("state") {
+		return fmt.Sprintf("refused:callback %d %s", rec2.Code, strings.TrimSpace(rec2.Body.String()))
+	}
+	return "ok"
 }
 
 func (w *World) newRS(name, ref, mode string, supplied bool) {
@@ -725,6 +789,12 @@ func buildOps() []Op {
 				}
 			}
 			return "ok"
+		}},
+		Op{Name: "rp.AuthURLHandler(RP2)", Kind: "call-client", Entry: "rp.AuthURLHandler", Run: func(w *World) string {
+			return w.browserLogin(true)
+		}},
+		Op{Name: "rp.AuthURLHandler+CodeExchangeHandler(RP2)", Kind: "call-client", Entry: "rp.AuthURLHandler+CodeExchangeHandler", Run: func(w *World) string {
+			return w.browserLogin(false)
 		}},
 		Op{Name: "rs.Introspect(RS0)", Kind: "call-client", Entry: "rs.Introspect", Run: func(w *World) string {
 			t := w.tokens(0)
